@@ -23,7 +23,7 @@ RULE = ('case = 2-3 concurrent callers (get / get_or_compute / forced get_or_com
         'complete result of one computation for the key (or the initial entry); no call raises; at quiescence the file parses to a complete entry for the key; '
         'an unforced get_or_compute that starts when a complete entry is stored and that no write overlaps does not invoke its computer; get computes nothing. '
         'non-trivial = schedule with >=1 context switch between the first and last step of some call; distinct = hash(config, choice sequence)')
-REQUIRED = ['process_level_schedules', 'schedules', 'exhaustive_pairs', 'context_switch_schedules', 'reads_overlapping_writes', 'truncate_window_schedules', 'lock_blocked_events',
+REQUIRED = ['process_level_schedules', 'schedules', 'exhaustive_pairs', 'context_switch_schedules', 'reads_overlapping_writes', 'truncate_window_schedules', 'mid_pickle_write_interleavings', 'lock_blocked_events',
             'three_caller_schedules', 'all_lines_schedules']
 ASSUMPTIONS = ['gate granularity = statements of cache.py touching shared state + lock and computer events; interleavings inside one write() call are not split',
                'get may answer NO_VALUE while nothing is stored or a write overlaps it; callers that both started before either returned may both compute']
@@ -49,8 +49,15 @@ def make_value(kind, token):
         return token
     if kind == 'pd':
         import pandas as pd
-        return pd.DataFrame({'caller': [str(token[1])] * (2 + token[2] % 9), 'n': [token[2]] * (2 + token[2] % 9)})
+        k = 2 + token[2] % 9
+        return pd.DataFrame({'caller': [sched.GateStr(str(token[1]))] + [str(token[1])] * (k - 1), 'n': [token[2]] * k})
     import numpy as np
+    if token[2] % 2:
+        # object array: stored by pickling its elements
+        a = np.empty(2 * (2 + token[2] % 7), dtype=object)
+        a[:] = [str(token[1]), str(token[2])] * (2 + token[2] % 7)
+        a[0] = sched.GateStr(str(token[1]))
+        return a
     return np.array([str(token[1]), str(token[2])] * (2 + token[2] % 7))
 
 
@@ -258,6 +265,14 @@ def judge(hist, res: CaseResult):
             if between:
                 res.count('truncate_window_schedules')
                 break
+    for idx, (step, c, label) in enumerate(tr):
+        if label == 'pickle:mid-write':
+            # the step released here is the rest of the write; other callers' steps between reaching the gate and this release ran mid-write
+            prev = [t for t in tr[:idx] if t[1] == c]
+            since = prev[-1][0] if prev else -1
+            if any(t[1] != c and since < t[0] < step for t in tr):
+                res.count('mid_pickle_write_interleavings')
+                break
 
 
 def dfs_all(cfg, res: CaseResult, cap=20000):
@@ -333,10 +348,20 @@ def cases(tier, seed):
             for present in (True, False):
                 for same in (True, False):
                     yield {'mode': 'dfs', 'cfg': {'ops': [a, b], 'present': present, 'same_object': same, 'cache': cache}, 'cap': 20000 if tier == 'thorough' else 6000}
+    if tier == 'quick':
+        # the pickle-based caches: readers overlapping a forced writer, all schedules
+        for cache in ('pd', 'npy'):
+            for a, b in (('get', 'force'), ('goc', 'force')):
+                yield {'mode': 'dfs', 'cfg': {'ops': [a, b], 'present': True, 'same_object': False, 'cache': cache}, 'cap': 6000}
+    caches3 = caches if tier != 'quick' else ['json', 'json', 'pd', 'npy']
+    # a probing `get` next to two computing callers on an absent key (what the probe does after releasing the lock matters to the others)
+    for i in range(20 if tier == 'quick' else 300):
+        cfg = {'ops': ['get', 'goc', rng.choice(['goc', 'force'])], 'present': False, 'same_object': rng.random() < 0.3, 'cache': rng.choice(caches3)}
+        yield {'mode': rng.choice(['random', 'pct']), 'cfg': cfg, 'n': 40, 'seed': rng.randrange(1 << 30), 'gate_all': i % 4 == 0}
     n3 = 60 if tier == 'quick' else 1500
     for i in range(n3):
         ops = [rng.choice(OPS) for _ in range(3)]
-        cfg = {'ops': ops, 'present': rng.random() < 0.5, 'same_object': rng.random() < 0.5, 'cache': rng.choice(caches)}
+        cfg = {'ops': ops, 'present': rng.random() < 0.5, 'same_object': rng.random() < 0.5, 'cache': rng.choice(caches3)}
         yield {'mode': rng.choice(['random', 'pct']), 'cfg': cfg, 'n': 25, 'seed': rng.randrange(1 << 30), 'gate_all': i % 3 == 0}
     # process-level variant: callers are OS processes
     npr = 24 if tier == 'quick' else 600
